@@ -79,6 +79,9 @@ def run(ctx):
         ctx.broken("C13.attr", f"only {n_attr} typed attribute uses")
     arity(ctx, model, funcs)
     ckl_set_fill(ctx, model)
+    ckl_shrink_loops(ctx, model)
+    host_data(ctx, model)
+    absent_key(ctx, model, engine, funcs)
     for c in model.subclasses("Value"):
         for m in c.methods.values():
             if m.name.startswith("as") and m.name[2:3].isupper():
@@ -312,6 +315,217 @@ def _nonneg_guard(f, node):
 
 
 # --------------------------------------------------------------------------------------------------
+def ckl_shrink_loops(ctx, model):
+    """Library code: a loop `while length(V) > P` that cuts P elements off V per round (sublist / substr from P)
+    makes progress only if P >= 1; for a parameter P that must be established by a guard that raises otherwise."""
+    from .. import cklsrc
+    n = 0
+    for fn, (src, _) in sorted(model.ckl_modules.items()):
+        try:
+            toks = cklsrc.tokenize(src)
+            funcs = cklsrc.functions(toks)
+        except cklsrc.CklTokenError as e:
+            ctx.broken(f"modules/{fn}", str(e))
+        for f in funcs:
+            body = cklsrc.own_body(f)
+            seen = set()
+            for i in range(len(body) - 6):
+                if not (body[i].is_id("while") and body[i + 1].is_id("length") and body[i + 2].is_p("(")
+                        and body[i + 3].kind == "id" and body[i + 4].is_p(")") and body[i + 5].is_p(">")
+                        and body[i + 6].kind == "id" and body[i + 6].text in f.params):
+                    continue
+                v, p = body[i + 3].text, body[i + 6].text
+                # the loop body re-binds V to a tail of V that starts at P
+                j = i + 7
+                end = cklsrc._skip_block(body, j) if hasattr(cklsrc, "_skip_block") else len(body)
+                loop = body[j:end]
+                shrinks = any(loop[k].kind == "id" and loop[k].text == v and loop[k + 1].is_p("=")
+                              and any(t.is_id("sublist") or t.is_id("substr") for t in loop[k + 2:k + 8])
+                              and any(t.kind == "id" and t.text == p for t in loop[k + 2:k + 10])
+                              for k in range(len(loop) - 3))
+                if not shrinks:
+                    continue
+                n += 1
+                pre = body[:i]
+                ok = (p in seen)
+                for k in range(len(pre) - 3):
+                    if pre[k].kind == "id" and pre[k].text == p and (
+                            (pre[k + 1].is_p("<=") and pre[k + 2].text == "0") or
+                            (pre[k + 1].is_p("<") and pre[k + 2].text == "1")) \
+                            and any(t.is_id("error") for t in pre[k + 3:k + 9]):
+                        ok = True
+                if ok:
+                    seen.add(p)
+                ctx.ob("C13.ckl.step", f"modules/{fn}: {f.qual}: while length({v}) > {p}", ok)
+                if not ok:
+                    ctx.fail("C13.ckl.step", f"modules/{fn}:{f.qual}", None,
+                             f"{f.qual} cuts `{p}` elements off `{v}` per round of `while length({v}) > {p}` but no "
+                             f"guard rejects {p} <= 0: the loop never terminates for a zero or negative step",
+                             expr=f"{f.qual}: while length({v}) > {p}", file=f"src/ckl/modules/{fn}", line=body[i].line)
+    if n < 1:
+        ctx.broken("C13.ckl.step", "no shrinking loop found in the library (chunks)")
+
+
+def absent_key(ctx, model, engine, funcs):
+    """KeyError / ValueError: list.remove(x), set.remove(x), del dict[k] and dict.pop(k) fail when the element is
+    absent.  Each such site is dominated by a membership test on the same container, or converts the host error;
+    when the element is a parameter of a small wrapper method, every caller of the wrapper must do so instead."""
+    from ..facts import must_facts
+    sites = []
+    for f in funcs:
+        if not any(isinstance(n, ast.Delete) or (isinstance(n, ast.Call) and isinstance(n.func, ast.Attribute)
+                                                 and n.func.attr in ("remove", "pop")) for n in ast.walk(f.node)):
+            continue
+        ip = engine.interp(f)
+        for ev in ip.events:
+            if ev.kind == "method":
+                recv, name, args = ev.data
+                if not known(recv):
+                    continue
+                if name == "remove" and recv.types <= {"list", "set"} and len(args) == 1:
+                    sites.append((f, ev.node, ev.node.func.value, ev.node.args[0],
+                                  f"{'/'.join(sorted(recv.types))}.remove(x) of an absent element"))
+                elif name == "pop" and recv.types <= {"dict"} and len(args) == 1:
+                    sites.append((f, ev.node, ev.node.func.value, ev.node.args[0], "dict.pop(k) of an absent key"))
+            elif ev.kind == "del_subscript":
+                (b,) = ev.data
+                if known(b) and b.types <= {"dict"} and isinstance(ev.node, ast.Subscript):
+                    sites.append((f, ev.node, ev.node.value, ev.node.slice, "del dict[k] of an absent key"))
+    ctx.ob("C13.key", f"{len(sites)} removal site(s) that fail on an absent element (list/set .remove, del dict[k], "
+           f"dict.pop(k)) typed in the package", True)
+
+    def guarded(f, node, cont, key):
+        g = CFG(f.node, implicit_exc=False)
+        facts = must_facts(g)
+        c, k = norm(cont), norm(key)
+        for n in g.nodes:
+            a = n.ast if n.kind != "for" else None
+            if a is not None and any(x is node for x in ast.walk(a)):
+                have = facts.get(n.id, frozenset())
+                if (f"{k} in {c}", True) in have or (f"{k} not in {c}", False) in have:
+                    return True
+        return _in_try_converting(f, node, ("KeyError", "ValueError", "Exception"))
+
+    for f, node, cont, key, what in sites:
+        if guarded(f, node, cont, key):
+            ctx.ob("C13.key", f"{f.qual}: {norm(node)[:60]} [guarded]", True)
+            continue
+        # a wrapper `def removeItem(self, item): self.value.remove(item)`: look at its callers
+        params = f.params[1:] if f.cls is not None else f.params
+        culprit = None
+        if isinstance(key, ast.Name) and key.id in params and f.cls is not None:
+            callers = []
+            for g_ in funcs:
+                for c in ast.walk(g_.node):
+                    if isinstance(c, ast.Call) and isinstance(c.func, ast.Attribute) and c.func.attr == f.name \
+                            and g_ is not f:
+                        callers.append((g_, c))
+            for g_, c in callers:
+                if not _in_try_converting(g_, c, ("KeyError", "ValueError", "Exception")) and not _caller_tests_membership(g_, c):
+                    culprit = (g_, c)
+                    break
+            if callers and culprit is None:
+                ctx.ob("C13.key", f"{f.qual}: {norm(node)[:60]} [every caller guards]", True)
+                continue
+        extra = f" (reached unguarded from {culprit[0].qual}: `{norm(culprit[1])[:50]}`)" if culprit else ""
+        ctx.check("C13.key", f, node, False,
+                  f"`{norm(node)[:60]}`: {what} raises KeyError / ValueError; no membership test on "
+                  f"`{norm(cont)}` dominates it and no handler converts the error{extra}",
+                  site=f"{f.qual}: {norm(node)[:60]}")
+
+
+def _caller_tests_membership(g_, call):
+    """the call is dominated by a hasItem / `in` test that mentions the same receiver"""
+    from ..facts import must_facts
+    g = CFG(g_.node, implicit_exc=False)
+    facts = must_facts(g)
+    recv = norm(call.func.value)
+    for n in g.nodes:
+        a = n.ast if n.kind != "for" else None
+        if a is not None and any(x is call for x in ast.walk(a)):
+            for t, pol in facts.get(n.id, frozenset()):
+                if pol and recv in t and (" in " in t or "hasItem(" in t or "isDefined(" in t):
+                    return True
+    return False
+
+
+JSON_KINDS = {"str", "int", "float", "bool", "list", "dict", "None"}
+
+
+def host_data(ctx, model):
+    """json.loads hands back str / int / float / bool / list / dict / None.  The converter it is given to either
+    tells all of these apart, or the call sits under a handler broad enough (Exception) to turn the host error of
+    the kinds it forgot into a language error."""
+    from .common import resolve_static_call
+    n = 0
+    for f in model.all_funcs():
+        for c in ast.walk(f.node):
+            if not (isinstance(c, ast.Call) and norm(c.func) in ("json.loads", "json.load")):
+                continue
+            n += 1
+            # where does the result go?
+            conv = None
+            for x in ast.walk(f.node):
+                if isinstance(x, ast.Call) and x is not c and x.args and (
+                        x.args[0] is c or (isinstance(x.args[0], ast.Name) and any(
+                            isinstance(a, ast.Assign) and a.value is c and norm(a.targets[0]) == x.args[0].id
+                            for a in ast.walk(f.node)))):
+                    conv = resolve_static_call(model, f, x)
+                    conv_call = x
+            if conv is None:
+                ctx.ob("C13.conv", f"{f.qual}: {norm(c)[:50]} [result not handed to a converter]", True)
+                continue
+            p0 = conv.params[1] if conv.cls is not None else conv.params[0]
+            handled = set()
+            for t in ast.walk(conv.node):
+                if isinstance(t, ast.Compare) and len(t.ops) == 1:
+                    l, r = norm(t.left), norm(t.comparators[0])
+                    if l == f"type({p0})" and r in JSON_KINDS:
+                        handled.add(r)
+                    if l == p0 and r == "None":
+                        handled.add("None")
+                    if l == f"type({p0})" and r == "type(None)":
+                        handled.add("None")
+                if isinstance(t, ast.Call) and norm(t.func) == "isinstance" and len(t.args) == 2 and norm(t.args[0]) == p0:
+                    for k in (t.args[1].elts if isinstance(t.args[1], ast.Tuple) else [t.args[1]]):
+                        handled.add(norm(k))
+            if "int" in handled and "bool" not in handled and any(
+                    isinstance(t, ast.Call) and norm(t.func) == "isinstance" for t in ast.walk(conv.node)):
+                handled.add("bool")        # isinstance(x, int) covers bool
+            rest = JSON_KINDS - handled
+            broad = _in_try_converting(f, conv_call, ("Exception",)) and _handler_is_broad(f, conv_call)
+            ok = len(rest) <= 1 or broad
+            ctx.check("C13.conv", f, conv_call, ok,
+                      f"{norm(c.func)} can return {sorted(JSON_KINDS)}; {conv.qual} tells apart {sorted(handled)} and "
+                      f"treats the rest ({sorted(rest)}) alike, and the call is not under a handler for Exception that "
+                      f"raises a language error: a host AttributeError / TypeError escapes for the forgotten kind",
+                      site=f"{f.qual}: {norm(conv_call)[:50]} covers every JSON kind or is under a broad handler")
+    if n == 0:
+        ctx.ob("C13.conv", "no json.loads in the package", True)
+
+
+def _handler_is_broad(f, node):
+    """node is inside a try with a bare / Exception / BaseException handler"""
+    found = False
+
+    def rec(n, stack):
+        nonlocal found
+        for ch in ast.iter_child_nodes(n):
+            if ch is node:
+                for t in stack:
+                    for h in t.handlers:
+                        if h.type is None or norm(h.type) in ("Exception", "BaseException"):
+                            found = True
+                return True
+            st = stack + [n] if isinstance(n, ast.Try) and ch in n.body else stack
+            if rec(ch, st):
+                return True
+        return False
+
+    rec(f.node, [])
+    return found
+
+
 def _definite_walrus(e):
     """names bound by `:=` in the parts of an expression that are evaluated unconditionally"""
     out = set()
@@ -469,6 +683,16 @@ def zero_and_index(ctx, engine, f, ip):
             if not p and (" == 0" in t) and (subj == div or sroot in roots):
                 ok = True
             if p and (" != 0" in t) and (subj == div or sroot in roots):
+                ok = True
+            # strict sign tests exclude zero as well: x > 0, x < 0, x >= 1, x <= -1 (true), x <= 0 / x >= 0 / not x
+            # do not; truthiness of the divisor itself does
+            for opx, rhs, pol in ((" > ", "0", True), (" < ", "0", True), (" >= ", "1", True), (" <= ", "-1", True),
+                                  (" <= ", "0", False), (" >= ", "0", False)):
+                if opx in t and p == pol:
+                    lhs, _, rr = t.partition(opx)
+                    if rr.strip() in (rhs, rhs + ".0") and (lhs == div or lhs in roots):
+                        ok = True
+            if p and (t == div or t in roots):
                 ok = True
         if isinstance(d.right, ast.BinOp) or (known(r) and not (r.types & {"int", "float", "bool"})):
             ok = True if isinstance(d.right, ast.BinOp) and _nonzero_expr(d.right) else ok
